@@ -24,6 +24,18 @@ theorem layers_never_overwrite (ls : List LayerSem) (hall : ∀ l ∈ ls, Writes
       (out.drop (offsetOf ls n)).take (Wire.sizeOf (ls.drop n)) = sub :=
   serialize_subchain ls hall n hn
 
+/-- The same two theorems under the weaker per-layer obligation `ChainOK` (each layer keeps the inner bytes intact on
+    the exact region `PDU::serialize` hands it), which is what layers with a trailer (EthernetII/Dot1Q padding, RadioTap
+    FCS, RTP padding) can meet. -/
+theorem serialize_total_and_size_exact_at (ls : List LayerSem) (hall : ChainOK ls) :
+    ∃ out, serialize ls = .ok out ∧ out.length = Wire.sizeOf ls :=
+  serialize_ok_at ls hall
+
+theorem layers_never_overwrite_at (ls : List LayerSem) (hall : ChainOK ls) (n : Nat) (hn : n ≤ ls.length) :
+    ∃ out sub, serialize ls = .ok out ∧ serialize (ls.drop n) = .ok sub ∧
+      (out.drop (offsetOf ls n)).take (Wire.sizeOf (ls.drop n)) = sub :=
+  serialize_subchain_at ls hall n hn
+
 /-- non-vacuity: a two-layer chain (8-byte header over a 3-byte payload) meeting the hypotheses -/
 example : ∃ out, serialize
     [ { name := "hdr", hdr := 8, trl := 0, write := fun r => writeAtStart r (List.replicate 8 7) },
